@@ -15,7 +15,11 @@ import (
 	"sort"
 	"sync"
 
+	"os"
+	"path/filepath"
+
 	"golang.org/x/perf/storage/fs"
+	"golang.org/x/perf/storage/fs/local"
 	sim "verif.local/sim"
 )
 
@@ -32,6 +36,7 @@ type simFile struct {
 const (
 	fsObjectStore = iota // content becomes visible at successful Close; failed Close stores nothing (GCS, MemFS)
 	fsLocalDisk          // file exists from create, holds what was written, survives a failed Close until CloseWithError removes it
+	fsRealLocal          // the REAL storage/fs/local implementation over a scratch directory, under a fault-injecting wrapper
 )
 
 type fsFault struct {
@@ -56,10 +61,17 @@ type simFS struct {
 	files       map[string]*simFile
 	clients     map[string]*fsClient // keyed by the "by" label ("anon" when absent)
 	dead        bool
+	inner       fs.FS  // fsRealLocal: storage/fs/local
+	root        string // fsRealLocal: its root directory
 }
 
 func newSimFS(r *sim.Run, personality int) *simFS {
 	return &simFS{r: r, personality: personality, files: map[string]*simFile{}, clients: map[string]*fsClient{}}
+}
+
+// useRealLocal switches the store to the real local file system implementation rooted at dir.
+func (f *simFS) useRealLocal(dir string) {
+	f.personality, f.root, f.inner = fsRealLocal, dir, local.NewFS(dir)
 }
 
 func (f *simFS) client(name string) *fsClient {
@@ -129,9 +141,16 @@ func (f *simFS) NewWriter(_ context.Context, name string, metadata map[string]st
 	if f.personality == fsLocalDisk {
 		sf.visible = true
 	}
+	var iw fs.Writer
+	if f.inner != nil {
+		var err error
+		if iw, err = f.inner.NewWriter(context.Background(), name, metadata); err != nil {
+			return nil, err
+		}
+	}
 	f.files[name] = sf
 	c.created = append(c.created, sf)
-	return &simFSWriter{fs: f, c: c, f: sf, idx: idx}, nil
+	return &simFSWriter{fs: f, c: c, f: sf, idx: idx, iw: iw}, nil
 }
 
 type simFSWriter struct {
@@ -140,6 +159,7 @@ type simFSWriter struct {
 	f      *simFile
 	idx    int
 	failed bool
+	iw     fs.Writer // real writer underneath (fsRealLocal)
 }
 
 func (w *simFSWriter) Write(p []byte) (int, error) {
@@ -160,6 +180,9 @@ func (w *simFSWriter) Write(p []byte) (int, error) {
 			if ft.kind == "short-write" && len(p) > 1 {
 				fs.r.Fault("fs-short-write")
 				w.f.buf = append(w.f.buf, p[:len(p)/2]...)
+				if w.iw != nil {
+					w.iw.Write(p[:len(p)/2])
+				}
 				return len(p) / 2, sim.ErrInjected
 			}
 			fs.r.Fault("fs-write-error")
@@ -167,6 +190,9 @@ func (w *simFSWriter) Write(p []byte) (int, error) {
 		}
 	}
 	w.f.buf = append(w.f.buf, p...)
+	if w.iw != nil {
+		return w.iw.Write(p)
+	}
 	return len(p), nil
 }
 
@@ -187,9 +213,17 @@ func (w *simFSWriter) Close() error {
 		fs.r.Fault("fs-close-error")
 		w.f.open = false
 		// object store: nothing stored; local disk: the file stays on disk
+		if w.iw != nil {
+			w.iw.Close() // the descriptor is really closed; the error is what a deferred write error at close looks like
+		}
 		return sim.ErrInjected
 	}
 	w.f.open = false
+	if w.iw != nil {
+		if err := w.iw.Close(); err != nil {
+			return err
+		}
+	}
 	w.f.visible = true
 	w.f.closedOK = true
 	return nil
@@ -203,6 +237,9 @@ func (w *simFSWriter) CloseWithError(error) error {
 	w.f.open = false
 	w.f.visible = false
 	delete(fs.files, w.f.name)
+	if w.iw != nil {
+		w.iw.CloseWithError(sim.ErrInjected)
+	}
 	return nil
 }
 
@@ -211,6 +248,17 @@ func (f *simFS) stored() map[string][]byte {
 	f.mu.Lock()
 	defer f.mu.Unlock()
 	out := map[string][]byte{}
+	if f.inner != nil {
+		filepath.Walk(f.root, func(p string, info os.FileInfo, err error) error {
+			if err == nil && !info.IsDir() {
+				rel, _ := filepath.Rel(f.root, p)
+				b, _ := os.ReadFile(p)
+				out[filepath.ToSlash(rel)] = b
+			}
+			return nil
+		})
+		return out
+	}
 	for n, sf := range f.files {
 		if sf.visible {
 			out[n] = append([]byte(nil), sf.buf...)
